@@ -325,6 +325,77 @@ def ordered_locals(fn):
     return seen
 
 
+def local_roles(fn):
+    """name -> role of a local in the function's loops (first role found, loops in source order)"""
+    roles = {}
+    loops = sorted([n for n in ast.walk(fn) if isinstance(n, (ast.While, ast.For))], key=lambda n: (n.lineno, n.col_offset))
+    for k, loop in enumerate(loops):
+        if isinstance(loop, ast.For):
+            flat = []
+
+            def tl(t):
+                if isinstance(t, ast.Name):
+                    flat.append(t.id)
+                elif isinstance(t, (ast.Tuple, ast.List)):
+                    for e in t.elts:
+                        tl(e)
+            tl(loop.target)
+            for idx, n in enumerate(flat):
+                roles.setdefault(n, ["for", k, idx])
+        inner = [n for b in loop.body for n in ast.walk(b)]
+        inner_ids = {id(n) for n in inner}
+        muts = []
+        for n in sorted([n for n in inner if hasattr(n, "lineno")], key=lambda n: (n.lineno, n.col_offset)):
+            base = None
+            if isinstance(n, ast.Subscript) and isinstance(n.ctx, ast.Store) and isinstance(n.value, ast.Name):
+                base = n.value.id
+            elif isinstance(n, ast.Call) and isinstance(n.func, ast.Attribute) and isinstance(n.func.value, ast.Name) \
+                    and n.func.attr in ("append", "extend", "pop", "insert", "remove", "clear", "add", "update"):
+                base = n.func.value.id
+            if base is not None and base not in muts:
+                muts.append(base)
+        for idx, n in enumerate(muts):
+            roles.setdefault(n, ["mut", k, idx])
+        inside = [n.id for n in sorted([n for n in inner if isinstance(n, ast.Name) and isinstance(n.ctx, ast.Store)], key=lambda n: (n.lineno, n.col_offset))]
+        outside = {n.id for n in ast.walk(fn) if isinstance(n, ast.Name) and isinstance(n.ctx, ast.Store) and id(n) not in inner_ids}
+        carried = []
+        for n in inside:
+            if n in outside and n not in carried:
+                carried.append(n)
+        for idx, n in enumerate(carried):
+            roles.setdefault(n, ["carried", k, idx])
+    return roles
+
+
+def loop_carried(fn):
+    """locals bound outside a loop and re-bound inside it (in order of first binding)"""
+    order = ordered_locals(fn)
+    carried = set()
+    for loop in [n for n in ast.walk(fn) if isinstance(n, (ast.While, ast.For))]:
+        inside = {n.id for b in loop.body for n in ast.walk(b) if isinstance(n, ast.Name) and isinstance(n.ctx, ast.Store)}
+        inner_nodes = {id(n) for b in loop.body for n in ast.walk(b)}
+        outside = {n.id for n in ast.walk(fn) if isinstance(n, ast.Name) and isinstance(n.ctx, ast.Store) and id(n) not in inner_nodes}
+        carried |= inside & outside
+    return [n for n in order if n in carried]
+
+
+def contract_names(c):
+    import re as _re
+    out = set()
+
+    def walk(x):
+        if isinstance(x, str):
+            out.update(_re.findall(r"[A-Za-z_][A-Za-z_0-9]*", x))
+        elif isinstance(x, (list, tuple)):
+            for y in x:
+                walk(y)
+        elif isinstance(x, dict):
+            for y in x.values():
+                walk(y)
+    walk(c.loops)
+    return out
+
+
 def rename_locals_in_contract(c, ren):
     """a copy of the contract whose loop invariants / variants / clauses speak about the function's locals under their current names"""
     import copy
@@ -341,8 +412,10 @@ def rename_locals_in_contract(c, ren):
         if isinstance(x, tuple):
             return tuple(sub(y) for y in x)
         if isinstance(x, dict):
-            return {k: sub(v) for k, v in x.items()}
+            # a local may also be a key (the kinds of list-typed locals); the spec's own keywords are never locals
+            return {(ren[k] if isinstance(k, str) and k in ren and k not in SPEC_KEYS else k): sub(v) for k, v in x.items()}
         return x
+    SPEC_KEYS = {"inv", "variant", "index_name", "list_kinds", "locals", "use", "use_exit", "modifies", "decreases"}
     c2 = copy.copy(c)
     c2.loops = sub(c.loops)
     c2.ensures = sub(c.ensures)
@@ -379,6 +452,21 @@ def prove_variant(reg, modules, file, qual, variant, timeout_ms=10000, prefix=""
                 for old_run, new_run in zip(runs(pinned), runs(actual)):
                     if old_run and len(old_run) == len(new_run):
                         ren.update(dict(zip(old_run, new_run)))
+            # temporaries were added or removed around a name the contract speaks about: such a name is loop state, and it is recognised by
+            # its ROLE in the loop (k-th target of the n-th for loop; list mutated in the n-th loop; k-th name bound before the n-th loop and
+            # re-bound in it), recorded in the baseline; it is mapped when exactly one new name has that role
+            proles = getattr(reg, "pinned_roles", {}).get(f"{file}:{qual}") or {}
+            if proles:
+                now = local_roles(fn)
+                used = contract_names(c)
+                taken = set(ren.values())
+                for old in pinned:
+                    if old in actual or old in ren or old not in used or old not in proles:
+                        continue
+                    cands = [n for n in actual if n not in pinned and n not in taken and now.get(n) == proles[old]]
+                    if len(cands) == 1:
+                        ren[old] = cands[0]
+                        taken.add(cands[0])
             c = rename_locals_in_contract(c, ren)
     res = UnitResult(qual, variant_label(variant))
     t0 = time.time()
